@@ -73,6 +73,7 @@ type corrResult struct {
 	PreHasTax    bool     `json:"pre_hastax"`
 	PreTaxSame   bool     `json:"pre_taxsame"` // preceding.tax equals the source's tax summary
 	Valid        bool     `json:"valid"`       // the result validates
+	RepPreSame   bool     `json:"rep_pre_same"` // a replica of the correction keeps the correction's preceding rows as they are
 	Business     string   `json:"business"`    // fingerprint of the business content
 }
 
@@ -160,6 +161,21 @@ func projectCorr(res *gobl.Envelope, src *gobl.Envelope, srcInv *bill.Invoice) c
 	if !ok {
 		return r
 	}
+	r.RepPreSame = true
+	func() {
+		defer func() {
+			if p := recover(); p != nil {
+				r.RepPreSame = false
+			}
+		}()
+		if rep, err := res.Replicate(); err == nil {
+			if ri, ok := rep.Extract().(*bill.Invoice); ok {
+				a, _ := json.Marshal(inv.Preceding)
+				b, _ := json.Marshal(ri.Preceding)
+				r.RepPreSame = bytes.Equal(a, b)
+			}
+		}
+	}()
 	r.NewUUID = res.Head != nil && !res.Head.UUID.IsZero() && res.Head.UUID != src.Head.UUID && !inv.UUID.IsZero() && inv.UUID != srcInv.UUID
 	r.HasCode = inv.Code != ""
 	r.Type, r.Series, r.IssueDate = string(inv.Type), string(inv.Series), inv.IssueDate.String()
@@ -405,9 +421,13 @@ func corrRun(repo, combosFile string, maxSrc int, bulkBin, goblBin string, cliEv
 			if c.Stamps {
 				var ss []*head.Stamp
 				for _, p := range merged.Stamps {
-					ss = append(ss, &head.Stamp{Provider: cbc.Key(p), Value: " opt  " + p + " "})
+					val := " opt  " + p + " "
+					if c.Series && !c.Date {
+						val = "" // a stamp without a value is not the stamp the regime asks for
+					}
+					ss = append(ss, &head.Stamp{Provider: cbc.Key(p), Value: val})
 					ev.ReqStamps = append(ev.ReqStamps, p)
-					ev.ReqStampVals = append(ev.ReqStampVals, p+"= opt  "+p+" ")
+					ev.ReqStampVals = append(ev.ReqStampVals, p+"="+val)
 				}
 				if len(ss) > 0 {
 					oj["stamps"] = ss
